@@ -361,6 +361,7 @@ class Scheduler():
     def clear(self):
         while not self.queue.empty():
             self.queue.pop()
+        self._expired.clear()  # Tasks of the batch being awakened are pending too.
 
     def empty(self):
         return self.queue.empty()
